@@ -12,7 +12,7 @@
   A zero reference price is handled honestly: the quotient is then `nan` (x = 0) or `±inf`
   (`step_zero`); `step_total` states that `next` never panics whatever the prices are.
 -/
-import TaRs.Lemmas.RateOfChange
+import TaRs.Lemmas.Core.RateOfChange
 import TaRs.Lemmas.Ring
 import TaRs.Lemmas.XLemmas
 import TaRs.Lemmas.Machine
